@@ -147,6 +147,28 @@ def pcn_kernel(c, iface, nonfinite=None):
           None if nonfinite is not None else _accept_rule(c, u, L(xs) - L(x)))
 
 
+def pcn_target_forms(c, iface, form):
+    """pCN built through its PUBLIC constructor with the target in each accepted form (a Posterior; for the legacy sampler also the documented tuple
+    (likelihood, prior)): the likelihood whose ratio decides acceptance is the target's likelihood, the distribution proposals are drawn from is its prior"""
+    import cuqi
+    from cuqi.distribution import Gaussian, Posterior
+    from cuqi.likelihood import UserDefinedLikelihood
+    n = 2
+    prior = Gaussian(c.vec('pm', n), c.vec('pv', n, pos=True), name='x')
+    like = UserDefinedLikelihood(dim=n, logpdf_func=lambda x: c.uf('loglike', *list(x)))
+    tgt = Posterior(like, prior) if form == 'posterior' else (like, prior)
+    x0 = c.vec('x0', n); v = c.vec('v', n)
+    if iface == 'exp':
+        s = cuqi.experimental.mcmc.PCN(tgt, scale=0.3, initial_point=x0); s.initialize()
+        c.eq('likelihood_used_by_the_kernel_is_the_targets_likelihood', s._loglikelihood(v), like.logd(v))
+        c.holds('prior_used_for_proposals_is_the_targets_prior', s.prior is prior or s.target.prior is prior)
+    else:
+        s = cuqi.sampler.pCN(tgt, scale=0.3, x0=x0)
+        c.eq('likelihood_used_by_the_kernel_is_the_targets_likelihood', s._loglikelihood(v), like.logd(v))
+        c.holds('prior_used_for_proposals_is_the_targets_prior', s.prior is prior)
+        c.holds('likelihood_attribute_is_the_targets_likelihood', s.likelihood is like)
+
+
 def pcn_reversible(c, iface, n=1, prior_kind='Normal'):
     """log p0(x') + log q(x|x') == log p0(x) + log q(x'|x) for the proposal mechanism the code uses with a real
     Gaussian prior with symbolic mean and std: then the likelihood ratio IS the Metropolis-Hastings ratio."""
@@ -433,5 +455,8 @@ def jobs(tier):
             m_ = (EXP if iface == 'exp' else LEG) + ('._mh' if name == 'MH' else '._cwmh')
             J.append(Job(f'{"experimental" if iface == "exp" else "legacy"}.{name}:proposal_validation', lambda c, i=iface, nm=name: proposal_validation(c, i, nm), 'B',
                          [f'{m_}:{name}.validate_proposal' if iface == 'exp' else f'{m_}:{name}.proposal'], nnum=1))
+    for iface, form in (('exp', 'posterior'), ('leg', 'posterior'), ('leg', 'tuple')):
+        J.append(Job(f'{"experimental" if iface == "exp" else "legacy"}.pCN:public_constructor:target_form={form}', lambda c, i=iface, f=form: pcn_target_forms(c, i, f), 'Pbox',
+                     [(EXP if iface == 'exp' else LEG) + '._pcn:' + ('PCN.validate_target' if iface == 'exp' else 'pCN.target')], nnum=3))
     J.append(Job('lemma:L-MH:detailed_balance', lemma_mh, 'Pinf', []))
     return J
